@@ -179,7 +179,7 @@ def expected_turn(case, t):
     if decide(case, t, "gen_action", 0) == "X":
         # the property: generate returns normally with a refusal or the internal-error message,
         # never the unchecked text; the output rails may or may not be consulted
-        return calls, "refusal-or-internal", False, False
+        return calls, "dialog-failed", False, False
     r, rr = out_rails_v2(False)
     return calls, r, rr, r == "refusal"
 
@@ -221,12 +221,21 @@ def oracle(case, obs):
             bad.append(("v2-output-rails-disabled-after-blocked-bot-message",
                         f"turn {t}: the LLM text was returned without calling any output rail (calls {got_calls})"))
             continue
-        if version == "v2" and (cls.startswith("other") and o["reply"] == "") and \
-                (got_calls == [] or decide(case, t, "gen_action", 0) == "X"):
+        if version == "v2" and o["reply"] == "" and got_calls == []:
             bad.append(("v2-dialog-action-failure-kills-conversation",
-                        f"turn {t}: empty reply, calls {got_calls} (a dialog action raised in this or an earlier turn)"))
+                        f"turn {t}: empty reply and no rail was called (a dialog action raised in an earlier turn)"))
             continue
-        ok_cls = cls == want_cls or (want_cls == "refusal-or-internal" and cls in ("refusal", "internal"))
+        if want_cls == "dialog-failed":
+            # a failing dialog action guards no text: generate must return normally without the LLM text
+            # (a refusal, the internal-error message, or no utterance at all); the output rails may be consulted
+            rest = got_calls[len(want_calls):]
+            if (cls in ("refusal", "internal") or o["reply"] == "") and got_calls[:len(want_calls)] == want_calls \
+                    and rest == [f"out_rail_{k}" for k in range(len(rest))]:
+                continue
+            bad.append((f"turn-differs-from-fresh-conversation:{version}",
+                        f"turn {t} (dialog action raised): calls {got_calls} reply {o['reply']!r}"))
+            continue
+        ok_cls = cls == want_cls
         if not ok_cls or got_calls != want_calls:
             if version == "v1" and cls == "refusal" and want_cls == "llm" and earlier_fault:
                 sig = "v1-hidden-turn-stale-context:spurious-refusal"
